@@ -87,7 +87,11 @@ def unit_text(k, dirty):
     t = []
     t.append("2024-01-15 'u%d-1\n # uuid: %08x-0000-4000-8000-000000000001\n e:food  %d EUR\n a:cash\n" % (k, k, w))
     t.append("2024-02-20 'u%d-2\n # uuid: %08x-0000-4000-8000-000000000002\n e:fuel  %d USD\n a:bank\n" % (k, k, w))
-    if dirty:
+    if dirty and k % 2 == 1:
+        # undeclared in strict mode: a tag (the Chart of Tags is empty), on declared accounts and commodity
+        t.append("2024-03-10 'u%d-3\n # uuid: %08x-0000-4000-8000-000000000003\n # tags: extra\n e:food  %d EUR\n a:cash\n" % (k, k, w))
+    elif dirty:
+        # undeclared in strict mode: an account
         t.append("2024-03-10 'u%d-3\n # uuid: %08x-0000-4000-8000-000000000003\n x:new  %d EUR\n a:cash\n" % (k, k, w))
     return "\n".join(t) + "\n"
 
@@ -97,7 +101,7 @@ def unit_postings(k):
     w = 2 ** k
     p = [(0, "e:food", w, "EUR"), (0, "a:cash", -w, "EUR"), (1, "e:fuel", w, "USD"), (1, "a:bank", -w, "USD")]
     if k in DIRTY:
-        p += [(2, "x:new", w, "EUR"), (2, "a:cash", -w, "EUR")]
+        p += [(2, "e:food" if k % 2 == 1 else "x:new", w, "EUR"), (2, "a:cash", -w, "EUR")]
     return p
 
 
@@ -109,7 +113,7 @@ def price_text(pid):
     return "\n".join(out) + "\n"
 
 
-WORLD_SPEC_VERSION = "v3"
+WORLD_SPEC_VERSION = "v4"
 
 
 def _git(cwd, *args):
